@@ -398,3 +398,47 @@ lemma("bye_clause", {"y": "arr2", "y2": "arr2", "dist": "arr2", "bye": "int", "t
       "total_len(y2, dist, bye, D, n) > total_len(y, dist, bye, D, n)",
       uses=["bye_increases(y, y2, dist, bye, team, e, n, n, D, (bye - 1) // 2)"],
       note="the statement's bye clause under the class invariant of GamePlanLength (bye_penalty = 2 * max distance + 1)")
+
+
+# ====================================================================== C15: the search-space generator and the decoder agree on the game code
+# search_space_for_n_and_rounds encodes the game "m1 at home against the other city" as m1 * (n - 1) + m2 with the away
+# index m2 squeezed past m1; map_games decodes home = (g // (n-1)) % n, away = g % (n-1), away += 1 if away >= home.
+# The refinement assertion below states that every code appended by the real generator loop lies in [0, n*(n-1)) and
+# decodes - by map_games' formulas - to exactly the pair (i, j) of the two loop variables, home side as chosen by `order`.
+GEM = "moptipyapps.ttp.game_encoding"
+spec("dec_home(g, n)", "(g // (n - 1)) % n")
+spec("dec_away(g, n)", "(g % (n - 1)) + 1 if (g % (n - 1)) >= dec_home(g, n) else (g % (n - 1))")
+_cir2 = contract("<opaque>:check_int_range", params={"v": PYINT, "name": OBJ, "lo": PYINT, "hi": PYINT}, returns=PYINT,
+                 ensures=["result == v and lo <= v and v <= hi"],
+                 assumptions=["pycommons.check_int_range returns its argument if it lies in [lo, hi] (raises otherwise)"])
+contract(
+    GEM + ":search_space_for_n_and_rounds",
+    props="C15",
+    params={"n": PYINT, "rounds": PYINT}, ghosts={"appended": PYINT}, i64=False,
+    requires=["appended == 0", "rounds >= 1"],      # the second range check of the function tests `n` again, not `rounds`
+    opaque={"check_int_range": _cir2},
+    summaries={
+        "assign games #0": Summary({}, [], "games = []"),
+        "call games.append #0": Summary({"appended": PYINT}, ["appended == prev(appended) + 1"],
+                                        "games.append(code): the list grows by the value of the argument, captured as `code`",
+                                        capture=("code",)),
+        "call games.sort #0": Summary({}, [], "games.sort(): the multiset of codes is unchanged"),
+        "return #0": Summary({}, [], "Permutations(games): permutations with repetition of that multiset"),
+    },
+    loops={"0": Loop(inv=["n >= 2 and div == n - 1"]), "0.0": Loop(inv=["n >= 2 and div == n - 1 and 0 <= i and i <= n"]),
+           "0.0.0": Loop(inv=["n >= 2 and div == n - 1 and 0 <= j and j <= i and i < n"])},
+    asserts={"after call games.append #0": [
+        tag("C15", "appended-code-is-home-times-(n-1)-plus-away", "code == m1 * (n - 1) + m2")],
+             "after if #0": [
+        tag("C15", "code-in-range", "0 <= m1 * div + m2 and m1 * div + m2 < n * (n - 1)"),
+        tag("C15", "home-and-squeezed-away-index", "0 <= m1 and m1 < n and 0 <= m2 and m2 < div and m1 == (i if order else j)"
+            " and m2 == ((j if order else i) - (1 if (j if order else i) > m1 else 0))"),
+        tag("C15", "code-splits-back", "(m1 * div + m2) // div == m1 and (m1 * div + m2) % div == m2 and div == n - 1"),
+        tag("C15", "decoder-recovers-the-home-team", "dec_home(m1 * div + m2, n) == (i if order else j)"),
+        # the away index: remainder m2 is the other city squeezed past m1 (stated in code-splits-back); map_games undoes the
+        # squeeze with `if away_idx >= home_idx: away_idx += 1` (its own contract, assertion decode-teams)
+    ]},
+    lemmas_at={"after if #0": ["divmod_unique(m1, div, m2)"]},
+)
+lemma("divmod_unique", {"q": "int", "d": "int", "r": "int"}, ["d >= 1", "0 <= r", "r < d"],
+      "(q * d + r) // d == q and (q * d + r) % d == r", note="uniqueness of Euclidean division")
